@@ -45,8 +45,22 @@ def gen_c15(rng: random.Random, sid: str, thorough: bool) -> dict:
                                                        (sp['name'], wire.T_SRV, 0x8001, 120, (0, 0, sp['port'], sp['host'])),
                                                        (sp['name'], wire.T_TXT, 0x8001, 4500, bytes.fromhex(sp['txt']))]))
     n = rng.choice([50, 120, 300]) if not thorough else rng.choice([50, 200, 500])
+    nq = 12                 # the first 12 valid messages are queries
     for _ in range(n):
         r = rng.random()
+        if r < 0.06:
+            # a query with the TC bit (held back 400-500 ms for its continuation) followed, or not, by more traffic from the
+            # same address while it is held
+            src, port = rng.choice(['10.0.0.9', '10.0.0.23']), rng.choice([5353, 5353, 40000])
+            first = bytearray(rng.choice(valid[:nq]))
+            first[2] |= 0x02
+            t += rng.choice([0, 5, 300, 1000])
+            steps += [{'op': 'at', 't': t}, {'op': 'raw', 'data': bytes(first).hex(), 'src': src, 'port': port}]
+            for _k in range(rng.choice([0, 1, 1, 2])):
+                t += rng.choice([0, 1, 50, 300, 399, 450, 501])
+                nxt = rng.choice(valid[:nq]) if rng.random() < 0.7 else c02.mutate(rng, rng.choice(valid[:nq]))
+                steps += [{'op': 'at', 't': t}, {'op': 'raw', 'data': nxt.hex(), 'src': src, 'port': port}]
+            continue
         if r < 0.35:
             data = c02.mutate(rng, rng.choice(valid))
         elif r < 0.5:
@@ -114,7 +128,7 @@ def run_scenarios(ctx: Ctx, scenarios: List[dict]) -> None:
 
 def run(ctx: Ctx) -> None:
     rng = random.Random(ctx.seed * 7919 + 15)
-    run_scenarios(ctx, [gen_c15(rng, 'c15-%d' % k, ctx.thorough) for k in range(ctx.pick(60, 1500))])
+    run_scenarios(ctx, [gen_c15(rng, 'c15-%d' % k, ctx.thorough) for k in range(ctx.pick(120, 1500))])
 
 
 def replay(ctx: Ctx, path: str) -> None:
